@@ -55,6 +55,7 @@ type gen struct {
 	hasAsync bool
 	consumed map[TypeID]bool
 	last     bool
+	curExt   string
 	roots    int // the first `roots` units take no provided inputs (fork), the last unit joins
 }
 
@@ -86,7 +87,56 @@ func letters(n int) string {
 	return string(rune('a'+(n/26)%26)) + string(rune('a'+n%26))
 }
 
+// Pools of the naming adversary: identifiers designed against the generator's name
+// allocator (base = lowerCamel(type name), numeric suffixes, hard-coded locals).
+var advTypeNames = []string{"Eg", "Ctx", "Ch", "Zero", "Err", "Errgroup", "Context", "Kessoku", "Foo", "Foo0", "Foo1", "Foo00", "FooCh", "FooCh0",
+	"Num", "Num0", "Str", "Str0", "Val", "Val0", "Val1", "ValCh", "Flag", "Type", "Func", "Range", "Go", "String", "Error", "Len", "Close", "Make", "New", "Nil", "Any",
+	"Config", "Err0", "Err1", "Ctx0", "Eg0", "Ptr", "Complex", "Null", "Invalid", "Arg0", "Result0", "ID", "HTTPServer", "Select", "Default", "Var", "Chan", "Map", "Struct", "Interface", "Package", "Import", "Return", "Defer", "Bool", "Int", "Append", "Panic", "True", "Iota"}
+var advPkgNames = []string{"num", "str0", "config", "err0", "ctx", "eg", "val", "valCh", "foo0", "fooCh", "zero", "ch", "err", "errgroup", "context0", "num0", "foo", "flag", "str"}
+var advInjNames = []string{"foo", "eg", "ctx", "err", "zero", "ch", "config", "val", "num", "initFoo", "foo0", "errgroup", "context"}
+
+// importNameTaken reports whether a package-level identifier n would collide with an
+// import name used by some file of the user package (such a package cannot compile,
+// whatever the generator does, so these names are not valid inputs).
+func (g *gen) importNameTaken(n string) bool {
+	if n == "kessoku" && g.c.KAlias == "" || n == g.c.KAlias || n == "vrt" {
+		return true
+	}
+	for i := range g.c.Exts {
+		e := &g.c.Exts[i]
+		if e.Alias == n || e.Alias == "" && e.Name == n {
+			return true
+		}
+	}
+	if n == "context" {
+		for i := range g.c.Provs {
+			for _, p := range g.c.Provs[i].Params {
+				if p == CtxType {
+					return true
+				}
+			}
+		}
+	}
+	return false
+}
+
 var reservedLower = map[string]bool{"go": true, "if": true, "in": true, "do": true, "ok": true, "eg": true, "ch": true, "id": true}
+
+// typeName returns a fresh type name: from the adversarial pool when the adversary is on.
+func (g *gen) typeName(prefix string) string {
+	if g.o.Adversarial && rapid.IntRange(0, 99).Draw(g.rt, "advname") < 55 {
+		k := rapid.IntRange(0, len(advTypeNames)-1).Draw(g.rt, "advidx")
+		for i := 0; i < len(advTypeNames); i++ {
+			n := advTypeNames[(k+i)%len(advTypeNames)]
+			if !g.used[n] {
+				g.used[n] = true
+				g.c.AddFeature("adv-names")
+				return n
+			}
+		}
+	}
+	return g.name(prefix)
+}
 
 // name returns a fresh package-level identifier with the given prefix.
 func (g *gen) name(prefix string) string {
@@ -123,10 +173,31 @@ var nbasicUnder = []string{"int", "string", "int64", "float64", "uint", "bool"}
 func (g *gen) ensureExt() *Ext {
 	if len(g.c.Exts) == 0 {
 		e := Ext{Key: "ext", Path: "extlib", Name: "extlib"}
-		if g.want("extalias", "extalias", 30) {
+		if g.o.Adversarial {
+			switch rapid.IntRange(0, 4).Draw(g.rt, "advext") {
+			case 1:
+				e.Path, e.Name = "x/errgroup", "errgroup"
+				g.c.AddFeature("adv-pkg-errgroup")
+			case 2:
+				e.Path, e.Name = "a/util", "util"
+				g.c.AddFeature("adv-pkg-util")
+			case 3:
+				e.Path, e.Name = "x/kessoku", "kessoku"
+				g.c.KAlias = "ksk"
+				g.c.AddFeature("adv-pkg-kessoku")
+			}
+		}
+		if e.Name == "extlib" && g.want("extalias", "extalias", 30) {
 			e.Alias = "xl"
 		}
 		g.c.Exts = append(g.c.Exts, e)
+		if e.Name == "util" && rapid.Bool().Draw(g.rt, "util2") {
+			g.c.Exts = append(g.c.Exts, Ext{Key: "ext2", Path: "b/util", Name: "util", Alias: "util2"})
+			g.c.AddFeature("adv-pkg-util-twice")
+		}
+	}
+	if len(g.c.Exts) > 1 && rapid.Bool().Draw(g.rt, "whichext") {
+		return &g.c.Exts[1]
 	}
 	return &g.c.Exts[0]
 }
@@ -137,7 +208,13 @@ func (g *gen) newStruct(pkg string, withFields bool) TypeID {
 	if pkg != "" {
 		prefix = "E"
 	}
-	t := Type{Kind: KStruct, Name: g.name(prefix), Pkg: pkg}
+	nm := ""
+	if pkg == "" {
+		nm = g.typeName(prefix)
+	} else {
+		nm = g.name(prefix)
+	}
+	t := Type{Kind: KStruct, Name: nm, Pkg: pkg}
 	if withFields {
 		n := rapid.IntRange(1, 3).Draw(g.rt, "nfields")
 		for i := 0; i < n; i++ {
@@ -182,8 +259,7 @@ func (g *gen) freshFieldTypeExt(pkg string) TypeID {
 // freshValueType creates a type that no unit supplies yet.
 func (g *gen) freshValueType(extOnly bool, label string) TypeID {
 	if extOnly {
-		e := g.ensureExt()
-		s := g.newStruct(e.Key, false)
+		s := g.newStruct(g.curExt, false)
 		if rapid.Bool().Draw(g.rt, label+"-ptr") {
 			return g.addType(Type{Kind: KPtr, Elem: s})
 		}
@@ -197,7 +273,7 @@ func (g *gen) freshValueType(extOnly bool, label string) TypeID {
 	case 3:
 		return g.newStruct("", false)
 	case 4:
-		return g.addType(Type{Kind: KNBasic, Name: g.name("N"), Basic: rapid.SampledFrom(nbasicUnder).Draw(g.rt, "under")})
+		return g.addType(Type{Kind: KNBasic, Name: g.typeName("N"), Basic: rapid.SampledFrom(nbasicUnder).Draw(g.rt, "under")})
 	case 5:
 		if g.allow("basic") {
 			var free []string
@@ -280,9 +356,9 @@ func (g *gen) freshValueType(extOnly bool, label string) TypeID {
 func (g *gen) freshArgType() TypeID {
 	switch rapid.IntRange(0, 3).Draw(g.rt, "argkind") {
 	case 0:
-		return g.addType(Type{Kind: KStruct, Name: g.name("A")})
+		return g.addType(Type{Kind: KStruct, Name: g.typeName("A")})
 	case 1:
-		s := g.addType(Type{Kind: KStruct, Name: g.name("A")})
+		s := g.addType(Type{Kind: KStruct, Name: g.typeName("A")})
 		return g.addType(Type{Kind: KPtr, Elem: s})
 	case 2:
 		return g.addType(Type{Kind: KNBasic, Name: g.name("N"), Basic: rapid.SampledFrom(nbasicUnder[:5]).Draw(g.rt, "under")})
@@ -304,7 +380,7 @@ func (g *gen) isExtOrBasic(id TypeID) bool {
 	case KBasic:
 		return true
 	case KStruct, KNBasic, KIface:
-		return t.Pkg != ""
+		return t.Pkg != "" && t.Pkg == g.curExt
 	case KPtr:
 		return g.isExtOrBasic(t.Elem)
 	}
@@ -360,6 +436,17 @@ func Gen(rt *rapid.T, o Opts) *Case {
 		g.genUnit(i)
 	}
 	g.genGroupsAndInjectors()
+	if o.Adversarial {
+		n := rapid.IntRange(0, 4).Draw(rt, "npkgnames")
+		for i := 0; i < n; i++ {
+			nm := rapid.SampledFrom(advPkgNames).Draw(rt, "pkgname")
+			if !g.used[nm] && !goReserved[nm] && !g.importNameTaken(nm) {
+				g.used[nm] = true
+				g.c.PkgNames = append(g.c.PkgNames, nm)
+				g.c.AddFeature("adv-pkg-level-names")
+			}
+		}
+	}
 	return g.c
 }
 
@@ -383,6 +470,7 @@ func (g *gen) genUnit(i int) {
 		extForm = true
 		p.Form = "ext"
 		p.Pkg = g.ensureExt().Key
+		g.curExt = p.Pkg
 	} else if g.want("lit", "litform", 12) {
 		p.Form = "lit"
 	}
@@ -523,7 +611,7 @@ func (g *gen) genUnit(i int) {
 		}
 		_ = ri
 		if g.want("bind", "bind", 30) {
-			it := g.addType(Type{Kind: KIface, Name: g.name("I"), Impl: rtID, Method: ""})
+			it := g.addType(Type{Kind: KIface, Name: g.typeName("I"), Impl: rtID, Method: ""})
 			g.c.Types[int(it)].Method = "VH" + g.c.T(it).Name
 			e.Bind = append(e.Bind, it)
 			if e.Async && rapid.Bool().Draw(g.rt, "asyncinner") {
@@ -646,6 +734,26 @@ func (g *gen) genGroupsAndInjectors() {
 	}
 	for ii := 0; ii < nInj; ii++ {
 		inj := Injector{Name: g.name("Init")}
+		if g.o.Adversarial && rapid.IntRange(0, 99).Draw(g.rt, "advinj") < 35 {
+			// lower-case injector names that equal (or resemble) generated variable names
+			var pool []string
+			for i := range g.c.Types {
+				if n := g.c.Types[i].Name; n != "" && g.c.Types[i].Pkg == "" {
+					pool = append(pool, lowerCamel(n))
+				}
+			}
+			pool = append(pool, advInjNames...)
+			k := rapid.IntRange(0, len(pool)-1).Draw(g.rt, "advinjidx")
+			for i := 0; i < len(pool); i++ {
+				n := pool[(k+i)%len(pool)]
+				if !g.used[n] && !goReserved[n] && !g.importNameTaken(n) {
+					g.used[n] = true
+					inj.Name = n
+					g.c.AddFeature("adv-injector-name")
+					break
+				}
+			}
+		}
 		included := map[int]bool{}
 		var elems []Elem
 		dropSome := ii > 0 && g.want("unneeded", "subset", 60)
@@ -732,4 +840,28 @@ func (g *gen) genGroupsAndInjectors() {
 		}
 	}
 	c.Files = files
+}
+
+func lowerCamel(s string) string {
+	i := 0
+	for i < len(s) && s[i] >= 'A' && s[i] <= 'Z' {
+		i++
+	}
+	b := []byte(s)
+	for j := 0; j < i; j++ {
+		b[j] += 'a' - 'A'
+	}
+	return string(b)
+}
+
+var goReserved = map[string]bool{}
+
+func init() {
+	for _, w := range []string{"break", "default", "func", "interface", "select", "case", "defer", "go", "map", "struct", "chan", "else", "goto", "package", "switch",
+		"const", "fallthrough", "if", "range", "type", "continue", "for", "import", "return", "var",
+		"any", "bool", "byte", "comparable", "complex64", "complex128", "error", "float32", "float64", "int", "int8", "int16", "int32", "int64", "rune", "string",
+		"uint", "uint8", "uint16", "uint32", "uint64", "uintptr", "true", "false", "iota", "nil", "append", "cap", "clear", "close", "complex", "copy", "delete", "imag", "len",
+		"make", "max", "min", "new", "panic", "print", "println", "real", "recover", "init", "main", "_"} {
+		goReserved[w] = true
+	}
 }
